@@ -185,6 +185,16 @@ def _atom(a, b, rel):
     """Canonical atom of the ordering domain: `x - y ? 0` is `x ? y`; the textually smaller term goes first."""
     ZERO = (("f", 0.0), ("i", 0))
     flip = str.maketrans("<>", "><")
+    # max(x, 0) ? 0 is a question about x: `>` iff x > 0, `=` iff x <= 0, `<` never
+    for _ in range(2):
+        if b in ZERO and a[0] == "app" and a[1] == "max" and len(a[2]) == 2 and any(z in ZERO for z in a[2]):
+            x = [t for t in a[2] if t not in ZERO] or [ZERO[0]]
+            rel = frozenset((">" if ">" in rel else "") + ("<=" if "=" in rel else ""))
+            a = x[0]
+        elif a in ZERO and b[0] == "app" and b[1] == "max" and len(b[2]) == 2 and any(z in ZERO for z in b[2]):
+            a, b, rel = b, a, frozenset("".join(rel).translate(flip))
+            continue
+        break
     if b in ZERO and a[0] == "app" and a[1] == "Sub" and len(a[2]) == 2:
         a, b = a[2]
     elif a in ZERO and b[0] == "app" and b[1] == "Sub" and len(b[2]) == 2:
